@@ -130,6 +130,9 @@ func (t *StreamUnderlay) Close() error {
 	// Unblock any pending I/O before closing sessions.
 	t.conn.SetDeadline(time.Now())
 	t.baseUnderlay.Close()
+	// The event loop may have re-armed its read timeout while the sessions
+	// were closing. Close the connection so it can't linger.
+	t.conn.Close()
 	return nil
 }
 
